@@ -270,6 +270,7 @@ type Effect struct {
 	Body   int // id of the loop-body path it was recorded on (0 outside loops)
 	Heap   bool
 	Typ    types.Type
+	Early  bool // EUndecided only: a return from inside a summarised loop (see execLoop); may-effect rules accept it
 }
 
 func (e *Effect) String() string {
@@ -325,6 +326,18 @@ func (e *Effect) Modifies() bool {
 	case EGrow:
 		return false // allocation + copy into new storage; the header store is separate
 	case ECall:
+		return !pureExternal(e.Callee)
+	}
+	return false
+}
+
+// pureExternal: standard-library functions that build a value (a string, an error) from their arguments and touch no
+// memory of the package; used to format panic messages. Trusted: a Stringer/Formatter method of an argument could
+// run arbitrary code; the allocation they cost is C18's business (its callee table is separate and does not list them).
+func pureExternal(callee string) bool {
+	switch callee {
+	case "strconv.Itoa", "strconv.FormatInt", "strconv.FormatUint", "strconv.Quote", "strconv.FormatFloat",
+		"fmt.Sprintf", "fmt.Sprint", "fmt.Sprintln", "fmt.Errorf", "errors.New":
 		return true
 	}
 	return false
